@@ -13,7 +13,7 @@ import (
 	"verifharness/vt"
 )
 
-var injectKinds = []string{"dict-plain", "dict-rle", "index-page", "v2", "enc-bss", "enc-rle-bool", "enc-delta-binary", "enc-delta-length", "enc-delta-bytearray",
+var injectKinds = []string{"dict-plain", "dict-rle", "dict-fallback", "index-page", "v2", "enc-bss", "enc-rle-bool", "enc-delta-binary", "enc-delta-length", "enc-delta-bytearray",
 	"lvl-bitpacked-def", "lvl-bitpacked-rep", "codec-lzo", "codec-brotli", "codec-lz4", "codec-zstd", "codec-lz4raw"}
 
 func kindApplies(kind string, col vt.Column) bool {
